@@ -68,7 +68,7 @@ package mdiff
 //@   at before "if cur.LEnd == cur.LStart && cur.REnd == cur.RStart": assert [C13] len(es) > 0 ==> lcur == len(lhs) + 1 && rcur == len(rhs) + 1
 //@   at before "if cur.LEnd == cur.LStart && cur.REnd == cur.RStart": assert [C13] len(es) > 0 ==> sameRun(lhs, rhs, cur.LEnd - 1, cur.REnd - 1, len(lhs) + 1 - cur.LEnd) && len(lhs) + 1 - cur.LEnd == len(rhs) + 1 - cur.REnd
 //@   at after "out = out[:len(out)-1]": assert [C13] len(out) > 0 && len(es) > 0 ==> out[len(out) - 1].LEnd <= cur.LStart && cur.LStart - out[len(out) - 1].LEnd == cur.RStart - out[len(out) - 1].REnd && sameRun(lhs, rhs, out[len(out) - 1].LEnd - 1, out[len(out) - 1].REnd - 1, cur.LStart - out[len(out) - 1].LEnd)
-//@   at before "return &Diff{Left: lhs, Right: rhs, Chunks: out, Edits: es}": assert [C13] len(out) > 0 ==> len(es) > 0
+//@   at return 1: assert [C13] len(out) > 0 ==> len(es) > 0
 //@   at after "out = out[:len(out)-1]": assert [C13] len(out) > 0 && len(es) > 0 ==> len(lhs) + 1 - out[len(out) - 1].LEnd == len(rhs) + 1 - out[len(out) - 1].REnd && sameRun(lhs, rhs, out[len(out) - 1].LEnd - 1, out[len(out) - 1].REnd - 1, len(lhs) + 1 - out[len(out) - 1].LEnd)
 //@   loop 1: invariant [C13] noedits: len(es) == 0 ==> cur.LStart == cur.LEnd && cur.RStart == cur.REnd
 //@   loop 1: invariant [C13] run: lcur - cur.LEnd == rcur - cur.REnd && sameRun(lhs, rhs, cur.LEnd - 1, cur.REnd - 1, lcur - cur.LEnd)
